@@ -68,6 +68,31 @@ def system_level(ctx, binary, projects, limit):
     return n_run, n_both, n_dump
 
 
+def failing_and_colliding_programs():
+    out = []
+    fails = {
+        "assert": "assert k == 99",
+        "div-zero": "print 10 / (k - k)",
+        "unwrap-nil": "o: int? = nil\n  print get o",
+        "index-range": "l: [int...] = [1]\n  print l[k + 5]",
+        "overflow-panic": "v = 2147483647\n  print v + k",
+        "bigint-overflow-panic": "v = B170141183460469231731687303715884105727\n  print v + k",
+        "map-missing-key": "m = map[str, int] { \"a\": 1 }\n  print get m[\"zz\"]",
+    }
+    for name, stmt in sorted(fails.items()):
+        out.append({"name": "fail:%s:module" % name, "entry": "main.ms",
+                    "files": {"main.ms": "print \"before\"\nk = 1\nif k == 1 {\n  %s\n}\nprint \"after\"\n" % stmt}})
+        out.append({"name": "fail:%s:function" % name, "entry": "main.ms",
+                    "files": {"main.ms": "f = fn(k: int) -> int {\n  print \"in f\"\n  %s\n  return k\n}\ng = fn(k: int) -> int {\n  return f(k) + 1\n}\nprint \"before\"\nprint g(1)\nprint \"after\"\n" % stmt}})
+    out.append({"name": "collide:same-class-name-in-two-scopes", "entry": "main.ms", "files": {"main.ms":
+        "mk1 = fn() -> int {\n  class Box {\n    constructor(self) {}\n    fn size(self) -> int { return 1 }\n  }\n  return Box().size()\n}\n"
+        "mk2 = fn() -> int {\n  class Box {\n    constructor(self) {}\n    fn size(self) -> int { return 2 }\n  }\n  return Box().size()\n}\n"
+        "print mk1()\nprint mk2()\n"}})
+    out.append({"name": "collide:same-function-name-in-two-scopes", "entry": "main.ms", "files": {"main.ms":
+        "a = fn() -> int {\n  h = fn() -> int { return 1 }\n  return h()\n}\nb = fn() -> int {\n  h = fn() -> int { return 2 }\n  return h()\n}\nprint a()\nprint b()\n"}})
+    return out
+
+
 def recompile_over_existing(ctx, binary, projects, limit):
     """`compile` writes the bytecode file in place: compiling a SHORTER program over the .mmm of a longer one
     (a multi-step history) must still give a file that executes like `run`."""
@@ -153,6 +178,9 @@ def run(ctx):
     # system level: corpus programs both ways
     projects = programs.corpus_from_tests() + programs.corpus_from_examples()
     ctx.rng.shuffle(projects)
+    # programs that END BADLY must end the same way under both commands (failure kinds x where the failure happens);
+    # and shapes whose compiled names collide inside one file (two classes of one name in different scopes)
+    projects = failing_and_colliding_programs() + projects
     n_run, n_both, n_dump = system_level(ctx, binary, projects, 120 if ctx.quick() else len(projects))
     ctx.cov["programs_recompiled_over_existing_file"] = recompile_over_existing(ctx, binary, projects, 25 if ctx.quick() else 150)
     ctx.cov["programs_run_both_ways"] = n_both
